@@ -166,6 +166,14 @@ pub mod fnv1a64 {
         }
     }
 
+    /// Verification hook (only with `--cfg postcard_verif`): run the const hasher on a
+    /// caller-supplied static schema, exactly as [`hash_ty_path`] does for `T::SCHEMA`.
+    #[cfg(postcard_verif)]
+    pub const fn verif_hash_path_schema(path: &str, schema: &'static DataModelType) -> [u8; 8] {
+        let state = hash_update_str(Fnv1a64Hasher::BASIS, path);
+        hash_sdm_type(state, schema).to_le_bytes()
+    }
+
     const fn hash_struct(state: u64, _name: &str, data: &Data) -> u64 {
         // NOTE: We do *not* hash the name of the type in hashv2. This
         // is to allow "safe" type punning, e.g. treating `Vec<u8>` and
